@@ -55,6 +55,8 @@ R1 = {
         M("algo/Inv.tla", "algo/Inv_B6.cfg"), M("algo/Inv.tla", "algo/Inv_B8.cfg", workers=8),
         M("algo/Inv.tla", "algo/Inv_B6_pinned.cfg", expect_violation="InvModOK"),
         M("algo/Inv.tla", "algo/Inv_B9.cfg", tiers=T, workers=12),
+        M("algo/SafeGcd.tla", "algo/SafeGcd_J6B6.cfg", workers=8), M("algo/SafeGcd.tla", "algo/SafeGcd_J5B6.cfg", workers=8),
+        M("algo/SafeGcd.tla", "algo/SafeGcd_J8B7.cfg", tiers=T, workers=12), M("algo/SafeGcd.tla", "algo/SafeGcd_J8B9.cfg", tiers=T, workers=12, timeout=3000),
     ],
     "C13": [
         M("algo/Signed.tla", "algo/Signed_B5.cfg"), M("algo/Signed.tla", "algo/Signed_B7.cfg"),
@@ -72,6 +74,9 @@ R1 = {
     "C06": [
         M("algo/Words.tla", "algo/Words_W2N2.cfg"),
         M("algo/Words.tla", "algo/Words_W3N2.cfg", tiers=T, workers=12, timeout=3000),
+    ],
+    "C16": [
+        M("algo/HexNibble.tla", "algo/HexNibble.cfg", workers=8),
     ],
     "C07": [
         M("algo/ModArith.tla", "algo/ModArith_plain_W3N2.cfg"),
